@@ -46,9 +46,12 @@ def derivative(poly: PolyLike, *diffvars: Union[ndpoly, str, int]) -> ndpoly:
             idx = poly.names.index(names_ref[diffvar])
         else:
             diffvar = numpoly.aspolynomial(diffvar)
-            exponents, _ = numpoly.remove_redundant_coefficients(
+            exponents, coefficients = numpoly.remove_redundant_coefficients(
                 diffvar.exponents, diffvar.coefficients
             )
+            # the constant term is kept even when it is zero; it is no term.
+            exponents = exponents[[bool(numpy.any(coeff)) for coeff in coefficients]]
+            assert len(exponents), "derivative variable assumes singletons"
             exponents, names = numpoly.remove_redundant_names(
                 exponents, diffvar.names
             )
